@@ -59,6 +59,7 @@ Starts(stmts, i) == IF i > Len(stmts) THEN <<>> ELSE <<TRUE>> \o [k \in 1..(Len(
 
 \* render: gap before token i is "\n" at statement starts (nothing before the first token), " " otherwise, unless
 \* `choice` overrides gap i with a kind; `tight`: no spaces at all between tokens that may touch (not modelled: always " ")
+\* a marker is the string 'L<line>s<slot>': <line> = the line it is rendered on, <slot> = index of the token (unique per program)
 RECURSIVE Render(_, _, _, _, _, _)
 Render(toks, starts, choice, i, line, acc) ==
   IF i > Len(toks) THEN acc \o "\n"
@@ -68,7 +69,7 @@ Render(toks, starts, choice, i, line, acc) ==
        LET gap == IF k = 0 THEN base ELSE (IF starts[i] /\ i > 1 THEN "\n" ELSE "") \o GapKinds[k] IN
        LET nl == IF k = 0 THEN baseNl ELSE baseNl + GapNl[k] IN
        LET ln == line + nl IN
-       LET tok == IF toks[i] = "@" THEN "'L" \o IntStr(ln) \o "'" ELSE toks[i] IN
+       LET tok == IF toks[i] = "@" THEN "'L" \o IntStr(ln) \o "s" \o IntStr(i) \o "'" ELSE toks[i] IN
        Render(toks, starts, choice, i + 1, ln, acc \o gap \o tok)
 Text(tp, choice) == LET s == Templates[tp] IN Render(Flat(s, 1), Starts(s, 1), choice, 1, 1, "")
 NTokens(tp) == Len(Flat(Templates[tp], 1))
